@@ -11,6 +11,9 @@ D5 == <<Abs, Sc("true"), Sc("false"), Sc("s:x"), Tb("k", "n:1")>>   \* absent, t
 D4 == <<Abs, Sc("true"), Sc("false"), Sc("s:x")>>
 D3 == <<Abs, Sc("true"), Sc("false")>>
 D2f == <<Abs, Sc("false")>>
+G4(t) == <<Abs, Sc(t), Tb("b", t), Tb("a", t)>>
+G3(t) == <<Abs, Sc(t), Tb("b", t)>>
+G2(t) == <<Abs, Sc(t)>>
 
 Slot(src, p, dom) == [src |-> src, p |-> p, dom |-> dom]
 Fix(src, p, v)    == [src |-> src, p |-> p, v |-> v]
@@ -110,6 +113,16 @@ NoTemplates ==
    slots |-> <<Slot("user", <<"mid", "en">>, D3), Slot("user", <<"mid", "leaf", "en">>, D3), Slot("user", <<"tags", "t1">>, D3),
                Slot("mid", <<"leaf", "a">>, <<Abs, Sc("s:ml")>>), Slot("user", <<"global", "a">>, <<Abs, Sc("s:ug")>>)>>]
 
+\* a name with a dot: a chart called my.sub with a dependency of its own (aliases may not contain dots).  The values key is the whole
+\* name; the condition path my.sub.en addresses my -> sub -> en (Chart.yaml paths are split on every dot)
+Dotted ==
+  [name |-> "dn", fixed |-> Own \o <<Fix("my.sub", <<"b">>, "s:mid")>>,
+   charts |-> ("my.sub" :> Ch(<<Dep("leaf", "", NoC, <<"t1">>)>>)) @@
+              [root |-> Ch(<<Dep("my.sub", "", <<<<"my", "sub", "en">>>>, NoT), Dep("leaf", "lx", NoC, <<"t1">>)>>), leaf |-> Ch(<<>>)],
+   slots |-> <<Slot("user", <<"my", "sub", "en">>, D3), Slot("user", <<"my.sub", "a">>, G2("s:um")), Slot("my.sub", <<"a">>, G2("s:m")),
+               Slot("user", <<"my.sub", "leaf", "a">>, G2("s:uml")), Slot("user", <<"lx", "a">>, G2("s:ux")),
+               Slot("user", <<"global", "a">>, G2("s:ug")), Slot("user", <<"tags", "t1">>, D3)>>]
+
 \* the middle chart is used twice (aliases m1, m2) and itself aliases its dependency
 Depth3Alias(d) ==
   [name |-> "d3a", fixed |-> Own,
@@ -130,9 +143,6 @@ Depth3Twice(d) ==
 
 (* --- scoping: globals at every level, own values, siblings ---------------------- *)
 
-G4(t) == <<Abs, Sc(t), Tb("b", t), Tb("a", t)>>
-G3(t) == <<Abs, Sc(t), Tb("b", t)>>
-G2(t) == <<Abs, Sc(t)>>
 
 ScopeG(gu, gr, gm, gd) ==
   [name |-> "sg", fixed |-> Own,
@@ -182,11 +192,11 @@ SchemaOff(d) ==
 
 -----------------------------------------------------------------------------
 QuickShapes == <<Truth2(D5, D4), Truth2d(D3, D4), Truth1(D3, D3), Tags0, CondGlobal,
-                 Alias2(D3), PlainAlias(D3), Depth3(D3, D3), Depth3Tags, NoTemplates, Depth3Alias(D3), Depth3Twice(D3),
+                 Alias2(D3), PlainAlias(D3), Depth3(D3, D3), Depth3Tags, NoTemplates, Dotted, Depth3Alias(D3), Depth3Twice(D3),
                  ScopeG(G4("s:ug"), G3("s:rg"), G3("s:um"), G3("s:m")), ScopeOwn, ScopeBare, ScopeAlias, SchemaOff(D3)>>
 
 ThoroughShapes == <<Truth2(D5, D4), Truth2d(D5, D4), Truth1(D5, D4), Tags0, CondGlobal,
-                    Alias2(D4), PlainAlias(D5), Depth3(D3, D5), Depth3Tags, NoTemplates, Depth3Alias(D3), Depth3Twice(D4),
+                    Alias2(D4), PlainAlias(D5), Depth3(D3, D5), Depth3Tags, NoTemplates, Dotted, Depth3Alias(D3), Depth3Twice(D4),
                     ScopeG(G4("s:ug"), G4("s:rg"), G4("s:um"), G4("s:m")), ScopeOwn, ScopeBare, ScopeAlias, SchemaOff(D3)>>
 
 \* beyond exhaustive reach: everything at once on the depth-3 tree with aliases (sampled with -simulate)
